@@ -213,11 +213,22 @@ def _case(rng, maxlen, allow_empty=False):
             elif b:
                 b[rng.randrange(len(b))] = rng.randrange(k2)
         b = b[:max(maxlen, 7)] or [0]
+    mform = "array"
+    if w1 == "u8" and w2 == "u8" and rng.random() < 0.45:
+        mform = rng.choice(["dict", "dict-same", "dict-same", "str", "str-same", "i64", "i16", "fortran", "strided",
+                            "readonly"])
     c = {"kind": "opt", "mode": rng.choice("gsl"), "gap": _gap(rng), "a": a, "b": b, "w1": w1, "w2": w2,
-         "off1": off1, "off2": off2,
+         "off1": off1, "off2": off2, "mform": mform,
          "alph2": rng.choice(["same", "chr", "chr"]), "M": _matrix(rng, k1, k2),
          "max": rng.choice([1, 1, 2, 3, 5, 10, 50, rng.randint(1, 50)])}
-    if c["alph2"] == "same" and (k1 != k2 or w1 != w2):
+    if mform.endswith("-same"):     # ONE alphabet, asymmetric scores: square matrix, same or equal alphabet object
+        k = max(k1, k2)
+        Mq = _matrix(rng, k, k)
+        if all(Mq[i][j] == Mq[j][i] for i in range(k) for j in range(k)):
+            Mq[0][k - 1] += 3
+        c["M"] = Mq
+        c["alph2"] = rng.choice(["same", "equal"])
+    elif c["alph2"] == "same" and (k1 != k2 or w1 != w2):
         c["alph2"] = "chr"
     rs = []
     if a and b:
@@ -253,6 +264,22 @@ def cases(rng, tier):
                              "alph2": "same", "M": Mx, "max": 50, "rs": []}
                         c["ops"] = _ops(c)
                         yield c
+    # hardening streams (oracle only): less-used entry points, object reuse, refused calls, spellings, defaults
+    n_api = 40 if tier == "quick" else 600
+    for k in range(n_api):
+        base = _case(rng, 5)
+        base.pop("ops", None)
+        base["rs"] = []
+        yield dict(base, kind=["reuse", "positional", "ungapped", "alnapi"][k % 4], w1="u8", w2="u8", off1=0, off2=0,
+                   mform=base["mform"] if base["w1"] == "u8" and base["w2"] == "u8" else "array",
+                   alph2=base["alph2"] if base["w1"] == "u8" and base["w2"] == "u8" else "chr")
+    for k in range(12 if tier == "quick" else 200):
+        db = rng.choice(["BLOSUM62", "PAM250", "BLOSUM45", "NUC", "std_protein", "std_nucleotide", "IDENTITY"])
+        nuc = db in ("NUC", "std_nucleotide")
+        letters = "ACGTNRYW" if nuc else "ACDEFGHIKLMNPQRSTVWYBZX"
+        yield {"kind": "stdmatrix", "db": db, "mode": rng.choice("gsl"), "gap": _gap(rng),
+               "sa": "".join(rng.choice(letters) for _ in range(rng.randint(1, 5))),
+               "sb": "".join(rng.choice(letters) for _ in range(rng.randint(1, 5))), "max": rng.choice([1, 5, 50])}
     # separate stream: matrices / gaps at the int32 bound (outside NoOverflow) — oracle only
     for _ in range(6 if tier == "quick" else 200):
         n, m = rng.randint(1, 3), rng.randint(1, 3)
@@ -336,7 +363,41 @@ def _alphabet(size, kind):
     import biotite.sequence as seq
     if kind == "chr":
         return seq.Alphabet([f"s{i}" for i in range(size)])
+    if kind == "LET":       # single upper-case letters (needed for dict_from_str / NCBI format strings)
+        return seq.Alphabet(list("ABCDEFGHIJKLMNOPQRSTUVWXYZ")[:size])
+    if kind == "let":
+        return seq.Alphabet(list("abcdefghijklmnopqrstuvwxyz")[:size])
     return seq.Alphabet(range(size))
+
+
+def _matrix_from(form, al1, al2, big):
+    """SubstitutionMatrix from the same numbers in different spellings (ndarray / dict / NCBI string / variants)."""
+    import numpy as np
+    import biotite.sequence.align as align
+    if form in ("dict", "dict-same", "str", "str-same"):
+        d = {(al1.decode(i), al2.decode(j)): int(big[i, j]) for i in range(len(al1)) for j in range(len(al2))}
+        if form.startswith("str"):
+            top = "   " + "  ".join(str(al2.decode(j)) for j in range(len(al2)))
+            rows = [str(al1.decode(i)) + "  " + "  ".join(str(int(big[i, j])) for j in range(len(al2)))
+                    for i in range(len(al1))]
+            d2 = align.SubstitutionMatrix.dict_from_str("# generated\n" + top + "\n" + "\n".join(rows) + "\n")
+            return align.SubstitutionMatrix(al1, al2, d2)
+        return align.SubstitutionMatrix(al1, al2, d)
+    if form == "i64":
+        return align.SubstitutionMatrix(al1, al2, np.array(big, dtype=np.int64))
+    if form == "i16":
+        return align.SubstitutionMatrix(al1, al2, np.array(big, dtype=np.int16))
+    if form == "fortran":
+        return align.SubstitutionMatrix(al1, al2, np.asfortranarray(np.array(big, dtype=np.int32)))
+    if form == "strided":
+        wide = np.zeros((big.shape[0] * 2, big.shape[1] * 3), dtype=np.int64)
+        wide[::2, ::3] = big
+        return align.SubstitutionMatrix(al1, al2, wide[::2, ::3])
+    if form == "readonly":
+        arr = np.array(big, dtype=np.int32)
+        arr.setflags(write=False)
+        return align.SubstitutionMatrix(al1, al2, arr)
+    return align.SubstitutionMatrix(al1, al2, big)
 
 
 def _build(c):
@@ -350,8 +411,16 @@ def _build(c):
     o1, o2 = c.get("off1", 0), c.get("off2", 0)
     s1 = max(WIDTH_SIZE[c["w1"]] or k1, o1 + k1)
     s2 = max(WIDTH_SIZE[c["w2"]] or k2, o2 + k2)
-    al1 = _alphabet(s1, "int")
-    al2 = al1 if (c["alph2"] == "same" and s1 == s2) else _alphabet(s2, "chr")
+    form = c.get("mform", "array")
+    if form.startswith("str"):          # NCBI strings need whitespace-free string symbols
+        al1 = _alphabet(s1, "LET")
+        al2 = al1 if (c["alph2"] == "same" and s1 == s2) else _alphabet(s2, "let")
+    else:
+        al1 = _alphabet(s1, "int")
+        al2 = al1 if (c["alph2"] == "same" and s1 == s2) else _alphabet(s2, "chr")
+    if c["alph2"] == "equal" and s1 == s2:   # an equal but distinct alphabet object
+        import biotite.sequence as _seq
+        al2 = _seq.Alphabet(al1.get_symbols())
     assert s1 * s2 <= 70000 * 8, "matrix too large"
     if s1 > k1 or s2 > k2:      # entries outside the used block must not matter: fill them with a varied pattern
         rr = np.arange(s1, dtype=np.int64)[:, None]
@@ -362,7 +431,7 @@ def _build(c):
     big[o1:o1 + k1, o2:o2 + k2] = np.array(c["M"], dtype=np.int64)
     if max(abs(x) for r in c["M"] for x in r) < 2**31:
         big = big.astype(np.int32)
-    matrix = align.SubstitutionMatrix(al1, al2, big)
+    matrix = _matrix_from(form, al1, al2, big)
     seqs = []
     for codes, al, w, off in ((c["a"], al1, c["w1"], o1), (c["b"], al2, c["w2"], o2)):
         s = seq.GeneralSequence(al)
@@ -389,7 +458,7 @@ def _align(c):
     return s1, s2, matrix, res
 
 
-def run_impl(case):
+def _run_impl_inner(case):
     import numpy as np
     import biotite.sequence.align as align
     c = case
@@ -421,7 +490,7 @@ def run_impl(case):
             out.append(f"ok {int(v)}")
         except Exception as e:  # noqa: BLE001
             out.append("ERR:" + type(e).__name__)
-    return out
+    return out, list(case["ops"])
 
 
 # ---------------------------------------------------------------- property oracle (independent of the Lean model)
@@ -549,8 +618,233 @@ def check_trace(mode, rows, n, m):
     return None
 
 
-def oracle(case):
+def _norm(res):
+    """canonical form of an align_optimal result: (scores, sorted traces)"""
+    return (sorted({int(r.score) for r in res}), sorted(tuple(map(tuple, r.trace.tolist())) for r in res))
+
+
+def _oracle_stdmatrix(c):
+    """sequences over the real protein / nucleotide alphabets with matrices loaded by name from the database; the
+    truth is the dictionary parsed from the database file (independent of SubstitutionMatrix's own filling)"""
+    import biotite.sequence as seq
+    import biotite.sequence.align as align
+    nuc = c["db"] in ("NUC", "std_nucleotide")
+    cls = seq.NucleotideSequence if nuc else seq.ProteinSequence
+    s1, s2 = cls(c["sa"]), cls(c["sb"])
+    alph = seq.NucleotideSequence.alphabet_amb if nuc else seq.ProteinSequence.alphabet
+    if c["db"] == "std_protein":
+        matrix, name = align.SubstitutionMatrix.std_protein_matrix(), "BLOSUM62"
+    elif c["db"] == "std_nucleotide":
+        matrix, name = align.SubstitutionMatrix.std_nucleotide_matrix(), "NUC"
+    else:
+        name = c["db"]
+        if name not in align.SubstitutionMatrix.list_db():
+            return [("C08/matrix/list_db-misses-" + name, f"{name} not in list_db()")]
+        matrix = align.SubstitutionMatrix(alph, alph, name)
+    d = align.SubstitutionMatrix.dict_from_db(name)
+    Mx = [[int(d[(alph.decode(i), alph.decode(j))]) for j in range(len(alph))] for i in range(len(alph))]
+    import numpy as np
+    v = []
+    if not np.array_equal(matrix.score_matrix(), np.array(Mx)):
+        v.append(("C08/matrix/score_matrix-differs-from-input/db", f"matrix {c['db']} differs from dict_from_db({name})"))
+    a, b = [int(x) for x in s1.code], [int(x) for x in s2.code]
+    gap, mode = c["gap"], c["mode"]
+    tag = f"C08/{ {'g': 'global', 's': 'semiglobal', 'l': 'local'}[mode] }/{'linear' if len(gap) == 1 else 'affine'}"
+    res = align.align_optimal(s1, s2, matrix, gap_penalty=_pygap(gap), terminal_penalty=(mode != "s"),
+                              local=(mode == "l"), max_number=c["max"])
+    if not res:
+        return v + [(tag + "/no-alignment", f"empty result for {c}")]
+    sc = int(res[0].score)
+    best = brute_opt(mode, a, b, Mx, gap)
+    if best is None:
+        best = rec_opt(mode, a, b, Mx, gap)
+    if best != sc:
+        v.append((tag + "/not-optimal", f"reported {sc}, true optimum {best} under the database matrix {c}"))
+    for r in res:
+        t = [(int(i), int(j)) for i, j in r.trace.tolist()]
+        why = check_trace(mode, t, len(a), len(b))
+        if why:
+            v.append((tag + "/invalid-trace", f"{t}: {why} {c}"))
+        elif doc_score(t, Mx, a, b, gap[0], gap[-1], mode != "s") != sc or \
+                int(align.score(r, matrix, _pygap(gap), terminal_penalty=(mode != "s"))) != sc:
+            v.append((tag + "/rescore-mismatch", f"{t} does not score {sc} {c}"))
+    return v
+
+
+def _oracle_api(c):
+    """less-used entry points and object-reuse / refused-call / spelling / default checks on one generated input"""
+    import numpy as np
+    import biotite.sequence as seq
+    import biotite.sequence.align as align
+    kind = c["kind"]
+    a, b, Mx, gap, mode = c["a"], c["b"], c["M"], c["gap"], c["mode"]
+    s1, s2, matrix = _build(c)
+    kw = dict(gap_penalty=_pygap(gap), terminal_penalty=(mode != "s"), local=(mode == "l"), max_number=c["max"])
+    v = []
+    ctx = f" [a={a} b={b} M={Mx} gap={gap} mode={mode} max={c['max']} mform={c.get('mform')}]"
+    if kind == "ungapped":
+        n = min(len(a), len(b))
+        t1, t2 = s1[:n], s2[:n]
+        want = sum(Mx[x][y] for x, y in zip(a[:n], b[:n]))
+        r = align.align_ungapped(t1, t2, matrix)
+        if int(r.score) != want or r.trace.tolist() != [[i, i] for i in range(n)]:
+            v.append(("C08/ungapped/score-or-trace", f"align_ungapped gives {r.score} {r.trace.tolist()}, want {want}" + ctx))
+        if int(align.align_ungapped(t1, t2, matrix, score_only=True)) != want:
+            v.append(("C08/ungapped/score_only", "score_only differs" + ctx))
+        if int(align.score(r, matrix, -3)) != want:
+            v.append(("C08/ungapped/rescore", "align.score of the ungapped alignment differs" + ctx))
+        if len(a) != len(b):
+            try:
+                align.align_ungapped(s1, s2, matrix)
+                v.append(("C08/ungapped/different-lengths-accepted", "no ValueError for different lengths" + ctx))
+            except ValueError:
+                pass
+        return v
+    base = _norm(align.align_optimal(s1, s2, matrix, **kw))
+    if kind == "positional":
+        pm, p1, p2 = matrix.as_positional(s1, s2)
+        got = _norm(align.align_optimal(p1, p2, pm, **kw))
+        if got != base:
+            v.append(("C08/positional/result-differs", f"align_optimal on as_positional() gives {got[0]}, direct {base[0]}" + ctx))
+        if not np.array_equal(pm.score_matrix(), np.array([[Mx[x][y] for y in b] for x in a]).reshape(len(a), len(b))):
+            v.append(("C08/positional/matrix", "positional matrix is not M[a_i, b_j]" + ctx))
+        return v
+    if kind == "alnapi":
+        res = align.align_optimal(s1, s2, matrix, **kw)
+        for r in res[:3]:
+            tr = r.trace
+            codes = align.get_codes(r)
+            want = np.array([[a[i] if i >= 0 else -1 for i in tr[:, 0]], [b[j] if j >= 0 else -1 for j in tr[:, 1]]],
+                            dtype=np.int64).reshape(2, len(tr))
+            if not np.array_equal(codes, want):
+                v.append(("C08/alignment/get_codes", f"get_codes {codes.tolist()} want {want.tolist()}" + ctx))
+            if len(r) != len(tr) or not (r == align.Alignment([s1, s2], tr.copy(), r.score)):
+                v.append(("C08/alignment/len-or-eq", "len()/== of a returned alignment" + ctx))
+            if len(a) and len(b) and len(tr):
+                pa = [k for k in range(len(tr)) if tr[k, 0] != -1]
+                pb = [k for k in range(len(tr)) if tr[k, 1] != -1]
+                if pa and pb:
+                    want_se = (max(pa[0], pb[0]), min(pa[-1], pb[-1]) + 1)
+                    if tuple(align.find_terminal_gaps(r)) != want_se:
+                        v.append(("C08/alignment/find_terminal_gaps", f"{align.find_terminal_gaps(r)} want {want_se}" + ctx))
+                    if want_se[0] < want_se[1]:
+                        cut = align.remove_terminal_gaps(r)
+                        if cut.trace.tolist() != tr[want_se[0]:want_se[1]].tolist():
+                            v.append(("C08/alignment/remove_terminal_gaps", "not the slice between the terminal gaps" + ctx))
+            sub = r[1:] if len(tr) > 1 else r
+            if sub.trace.tolist() != (tr[1:] if len(tr) > 1 else tr).tolist():
+                v.append(("C08/alignment/getitem", "slicing a returned alignment" + ctx))
+            # score() must not modify the alignment
+            before = tr.copy()
+            align.score(r, matrix, _pygap(gap), terminal_penalty=(mode != "s"))
+            if not np.array_equal(before, r.trace):
+                v.append(("C08/state/score-modified-trace", "align.score changed Alignment.trace" + ctx))
+        return v
+    # ---- kind == "reuse": state across calls, refused calls, spellings, defaults
+    snap = (s1.code.copy(), s2.code.copy(), matrix.score_matrix().copy())
+
+    def unchanged(what):
+        if not (np.array_equal(snap[0], s1.code) and np.array_equal(snap[1], s2.code)
+                and np.array_equal(snap[2], matrix.score_matrix())):
+            v.append(("C08/state/" + what + "-changed-arguments", "sequence codes / matrix differ from their snapshot" + ctx))
+    if _norm(align.align_optimal(s1, s2, matrix, **kw)) != base:
+        v.append(("C08/state/second-call-differs", "same call on the same objects gives another result" + ctx))
+    other = dict(kw, local=not kw["local"], gap_penalty=(-1 if isinstance(kw["gap_penalty"], tuple) else (-2, -1)),
+                 max_number=1)
+    align.align_optimal(s2, s1, matrix.transpose(), **other)
+    align.align_optimal(s1, s2, matrix, **other)
+    if _norm(align.align_optimal(s1, s2, matrix, **kw)) != base:
+        v.append(("C08/state/call-after-other-settings-differs", "result depends on an earlier call" + ctx))
+    unchanged("valid-call")
+    bad_alph = seq.Alphabet(["q", "r"])
+    bad_seq = seq.GeneralSequence(bad_alph, ["q"])
+    for what, args, kws in [("positive-gap", (s1, s2, matrix), dict(kw, gap_penalty=1)),
+                            ("positive-open", (s1, s2, matrix), dict(kw, gap_penalty=(1, -1))),
+                            ("positive-ext", (s1, s2, matrix), dict(kw, gap_penalty=(-1, 1))),
+                            ("float-gap", (s1, s2, matrix), dict(kw, gap_penalty=-1.5)),
+                            ("max_number-0", (s1, s2, matrix), dict(kw, max_number=0)),
+                            ("foreign-alphabet-1", (bad_seq, s2, matrix), kw),
+                            ("foreign-alphabet-2", (s1, bad_seq, matrix), kw)]:
+        try:
+            align.align_optimal(*args, **kws)
+            v.append(("C08/refused/" + what + "-accepted", "no exception" + ctx))
+        except (ValueError, TypeError):
+            pass
+        unchanged("refused-call-" + what)
+        if _norm(align.align_optimal(s1, s2, matrix, **kw)) != base:
+            v.append(("C08/state/call-after-refused-" + what + "-differs", "valid call after a refused one differs" + ctx))
+    # spellings of the same values: equal result, or a refusal (TypeError/ValueError) — never another answer
+    g = kw["gap_penalty"]
+    spell = []
+    if isinstance(g, tuple):
+        for T in (np.int64, np.int32, np.int16, np.int8):
+            spell.append((f"gap-tuple-{T.__name__}", dict(kw, gap_penalty=(T(g[0]), T(g[1])))))
+        spell.append(("gap-list", dict(kw, gap_penalty=[g[0], g[1]])))
+    else:
+        for T in (np.int64, np.int32, np.int8):
+            spell.append((f"gap-{T.__name__}", dict(kw, gap_penalty=T(g))))
+        spell.append(("gap-bool-like", dict(kw, gap_penalty=g + 0)))
+    for T in (np.int64, np.uint8, np.int16):
+        spell.append((f"max_number-{T.__name__}", dict(kw, max_number=T(kw["max_number"]))))
+    spell.append(("flags-np.bool_", dict(kw, terminal_penalty=np.bool_(kw["terminal_penalty"]), local=np.bool_(kw["local"]))))
+    spell.append(("flags-int", dict(kw, terminal_penalty=int(kw["terminal_penalty"]), local=int(kw["local"]))))
+    for what, kws in spell:
+        try:
+            got = _norm(align.align_optimal(s1, s2, matrix, **kws))
+        except (TypeError, ValueError, OverflowError):   # a refusal is fine, another answer is not
+            continue
+        if got != base:
+            v.append(("C08/spelling/" + what, f"{what}: result {got[0]} differs from the plain spelling {base[0]}" + ctx))
+    # sequence codes as strided / non-owning arrays of the right dtype
+    for what, mk in [("strided-code", lambda x: np.repeat(x, 2)[::2]),
+                     ("reversed-view-code", lambda x: x[::-1][::-1]),
+                     ("readonly-code", lambda x: (lambda y: (y.setflags(write=False), y)[1])(x.copy()))]:
+        t1, t2 = s1.copy(), s2.copy()
+        t1._seq_code, t2._seq_code = mk(s1.code), mk(s2.code)
+        try:
+            got = _norm(align.align_optimal(t1, t2, matrix, **kw))
+        except (TypeError, ValueError, OverflowError):   # a refusal is fine, another answer is not
+            continue
+        if got != base:
+            v.append(("C08/spelling/" + what, f"{what}: result {got[0]} differs from {base[0]}" + ctx))
+    # score(): spellings and defaults
+    res = align.align_optimal(s1, s2, matrix, **kw)
+    r = res[0]
+    tp = kw["terminal_penalty"]
+    plain = int(align.score(r, matrix, g, terminal_penalty=tp))
+    alts = [("score-gap-np", (np.int64(g[0]), np.int32(g[1])) if isinstance(g, tuple) else np.int16(g), tp),
+            ("score-gap-float", (float(g[0]), float(g[1])) if isinstance(g, tuple) else float(g), tp),
+            ("score-gap-list", [g[0], g[1]] if isinstance(g, tuple) else g, tp),
+            ("score-tp-np.bool_", g, np.bool_(tp)), ("score-tp-int", g, int(tp))]
+    for what, gg, tt in alts:
+        try:
+            got = align.score(r, matrix, gg, terminal_penalty=tt)
+        except (TypeError, ValueError, OverflowError):   # a refusal is fine, another answer is not
+            continue
+        if got != plain:
+            v.append(("C08/spelling/" + what, f"align.score gives {got}, plain spelling {plain}" + ctx))
+    if int(align.score(r, matrix)) != int(align.score(r, matrix, -10, True)):
+        v.append(("C08/defaults/score", "score() defaults are not gap_penalty=-10, terminal_penalty=True" + ctx))
+    d1 = _norm(align.align_optimal(s1, s2, matrix))
+    d2 = _norm(align.align_optimal(s1, s2, matrix, gap_penalty=-10, terminal_penalty=True, local=False, max_number=1000))
+    want_default = brute_opt("g", a, b, Mx, [-10])
+    if want_default is None:
+        want_default = rec_opt("g", a, b, Mx, [-10])
+    if d1 != d2 or d1[0] != [want_default]:
+        v.append(("C08/defaults/align_optimal", f"defaults give {d1[0]}, explicit {d2[0]}, optimum with gap -10 global: {want_default}" + ctx))
+    for name, kws in [("positional-args", None)]:
+        got = _norm(align.align_optimal(s1, s2, matrix, kw["gap_penalty"], kw["terminal_penalty"], kw["local"], kw["max_number"]))
+        if got != base:
+            v.append(("C08/defaults/positional-argument-order", "positional arguments bind differently" + ctx))
+    return v
+
+
+def _oracle_inner(case):
     c = case
+    if c.get("kind") == "stdmatrix":
+        return _oracle_stdmatrix(c)
+    if c.get("kind") in ("reuse", "positional", "ungapped", "alnapi"):
+        return _oracle_api(c)
     if c.get("kind") not in ("opt", "grid", "overflow"):
         return []
     a, b, Mx, gap, mode = c["a"], c["b"], c["M"], c["gap"], c["mode"]
@@ -566,6 +860,8 @@ def oracle(case):
         return [(tag + "/raises-" + type(e).__name__, f"align_optimal raised {type(e).__name__}: {e} on {a} {b} {gap}")]
     if not res:
         return [(tag + "/no-alignment", f"empty result list for a={a} b={b}")]
+    if not overflow:
+        v += _matrix_checks(c, matrix)
     scores = {int(r.score) for r in res}
     if len(scores) != 1:
         v.append((tag + "/scores-differ", f"returned alignments carry different scores {sorted(scores)}"))
@@ -621,7 +917,101 @@ def oracle(case):
     return out
 
 
+def _matrix_checks(c, matrix):
+    """the SubstitutionMatrix built from the case's numbers (any spelling) must carry exactly these numbers"""
+    import numpy as np
+    import biotite.sequence.align as align
+    v = []
+    k1, k2 = len(c["M"]), len(c["M"][0])
+    o1, o2 = c.get("off1", 0), c.get("off2", 0)
+    form = c.get("mform", "array")
+    want = np.array(c["M"], dtype=np.int64)
+    sm = matrix.score_matrix()
+    ctx = f"(matrix given as {form}, alph2={c['alph2']}, M={c['M']})"
+    if not np.array_equal(sm[o1:o1 + k1, o2:o2 + k2], want):
+        v.append((f"C08/matrix/score_matrix-differs-from-input/{form}",
+                  f"score_matrix() block {sm[o1:o1 + k1, o2:o2 + k2].tolist()} {ctx}"))
+    if sm.dtype != np.int32 or sm.flags.writeable:
+        v.append(("C08/matrix/score_matrix-dtype-or-writeable", f"dtype {sm.dtype} writeable {sm.flags.writeable} {ctx}"))
+    if tuple(matrix.shape) != (len(matrix.get_alphabet1()), len(matrix.get_alphabet2())):
+        v.append(("C08/matrix/shape", f"shape = {matrix.shape} {ctx}"))
+    al1, al2 = matrix.get_alphabet1(), matrix.get_alphabet2()
+    for i, j in ((0, k2 - 1), (k1 - 1, 0), (k1 // 2, k2 // 2)):
+        g1 = int(matrix.get_score_by_code(o1 + i, o2 + j))
+        g2 = int(matrix.get_score(al1.decode(o1 + i), al2.decode(o2 + j)))
+        if g1 != c["M"][i][j] or g2 != c["M"][i][j]:
+            v.append((f"C08/matrix/get_score-differs-from-input/{form}",
+                      f"get_score_by_code={g1} get_score={g2} want {c['M'][i][j]} at ({i},{j}) {ctx}"))
+    if len(al1) * len(al2) <= 4000:
+        t = matrix.transpose()
+        if not np.array_equal(t.score_matrix(), sm.T) or t.get_alphabet1() != al2 or t.get_alphabet2() != al1:
+            v.append(("C08/matrix/transpose", f"transpose() is not the transposed matrix {ctx}"))
+        sym = (al1 == al2) and np.array_equal(sm, sm.T)
+        if bool(matrix.is_symmetric()) != bool(sym):
+            v.append(("C08/matrix/is_symmetric", f"is_symmetric() = {matrix.is_symmetric()}, matrix symmetric: {sym} {ctx}"))
+        fresh = align.SubstitutionMatrix(al1, al2, np.array(sm, dtype=np.int64))
+        if not (matrix == fresh) or (matrix != fresh):
+            v.append(("C08/matrix/eq", f"matrix != matrix rebuilt from its own score_matrix() {ctx}"))
+    return v
+
+
+_WARM = []
+
+
+def _prewarm():
+    """import biotite and fill the caches in the parent so that the forked children inherit them"""
+    if _WARM:
+        return
+    import biotite.sequence.align  # noqa: F401
+    for size in (300, 70000):
+        for kind in ("int", "chr"):
+            _alphabet(size, kind)
+    for n in range(6):
+        for m in range(6):
+            if _delannoy(n, m) <= 2500:
+                _paths(n, m, True)
+                _paths(n, m, False)
+    _WARM.append(1)
+
+
+def run_impl(case):
+    """the real code runs in a forked child: a dead process or a hang is a verdict (CRASH line), never a dead check"""
+    from common import sandbox
+    _prewarm()
+    r = sandbox.run_forked(_run_impl_inner, case, timeout=120)
+    if r[0] == "ok":
+        out, ops = r[1]
+        case["ops"][:] = ops
+        case["_impl_ok"] = True      # the same calls survived in a child: the oracle may run them in-process
+        return out
+    if r[0] == "err":
+        return [f"UNCAUGHT:{r[1]}"] * len(case["ops"])
+    return ["CRASH" if r[0] == "crash" else "HANG"] * len(case["ops"])
+
+
+def oracle(case):
+    from common import sandbox
+    _prewarm()
+    if case.get("_impl_ok"):
+        try:
+            r = ("ok", _oracle_inner(case))
+        except Exception as e:  # noqa: BLE001
+            r = ("err", type(e).__name__, str(e)[:300])
+    else:
+        r = sandbox.run_forked(_oracle_inner, case, timeout=120)
+    desc = {k: case.get(k) for k in ("kind", "mode", "gap", "a", "b", "M", "max", "mform", "w1", "w2", "db", "sa", "sb")}
+    if r[0] == "ok":
+        return r[1]
+    if r[0] == "err":
+        return [(f"C08/unexpected-exception/{case.get('kind')}/{r[1]}", f"{r[1]}: {r[2]} on {desc}")]
+    if r[0] == "crash":
+        return [(f"C08/crash/signal-{r[1]}", f"the process died (signal {r[1]}) on {desc}")]
+    return [("C08/hang", f"no answer within 120 s on {desc}")]
+
+
 def nontrivial(case, impl_out):
+    if case.get("kind") == "stdmatrix":
+        return True
     if case.get("kind") == "overflow":
         return False
     Mx = case["M"]
@@ -629,15 +1019,21 @@ def nontrivial(case, impl_out):
 
 
 def signature(case):
-    return f"{case['mode']}|{case['gap']}|{case['a']}|{case['b']}|{case['M']}|{case['max']}"
+    if case.get("kind") == "stdmatrix":
+        return f"std|{case['db']}|{case['mode']}|{case['gap']}|{case['sa']}|{case['sb']}"
+    return f"{case.get('kind')}|{case.get('mform')}|{case['mode']}|{case['gap']}|{case['a']}|{case['b']}|{case['M']}|{case['max']}"
 
 
 def distribution(cases, impl_outs):
-    d = {"mode": {}, "gap": {}, "widths": {}, "code_values": {}, "n_traces": {}, "len": {}, "alph2": {}, "errors": {}}
+    d = {"kind": {}, "matrix_form": {}, "mode": {}, "gap": {}, "widths": {}, "code_values": {}, "n_traces": {}, "len": {}, "alph2": {}, "errors": {}}
 
     def inc(k, x):
         d[k][x] = d[k].get(x, 0) + 1
     for c, o in zip(cases, impl_outs):
+        inc("kind", c.get("kind", "?"))
+        inc("matrix_form", c.get("mform", c.get("db", "array")))
+        if c.get("kind") == "stdmatrix":
+            continue
         inc("mode", c["mode"])
         inc("gap", "linear" if len(c["gap"]) == 1 else ("affine open<ext" if c["gap"][0] < c["gap"][1] else "affine"))
         inc("widths", c["w1"] + "/" + c["w2"])
